@@ -50,9 +50,9 @@ def convertUFO1OrUFO2KerningToUFO3Kerning(
                     secondReferencedGroups.add(second)
     # Create new names for these groups.
     firstRenamedGroups: dict[str, str] = {}
-    for first in firstReferencedGroups:
+    for first in sorted(firstReferencedGroups):
         # Make a list of existing group names.
-        existingGroupNames = list(groups.keys()) + list(firstRenamedGroups.keys())
+        existingGroupNames = list(groups.keys()) + list(firstRenamedGroups.values())
         # Remove the old prefix from the name
         newName = first.replace("@MMK_L_", "")
         # Add the new prefix to the name.
@@ -62,9 +62,9 @@ def convertUFO1OrUFO2KerningToUFO3Kerning(
         # Store for use later.
         firstRenamedGroups[first] = newName
     secondRenamedGroups: dict[str, str] = {}
-    for second in secondReferencedGroups:
+    for second in sorted(secondReferencedGroups):
         # Make a list of existing group names.
-        existingGroupNames = list(groups.keys()) + list(secondRenamedGroups.keys())
+        existingGroupNames = list(groups.keys()) + list(secondRenamedGroups.values())
         # Remove the old prefix from the name
         newName = second.replace("@MMK_R_", "")
         # Add the new prefix to the name.
